@@ -9,7 +9,8 @@ PARSE_PINS = [
     "workflow_yaml__buildOneOfExpressions",
     "workflow_yaml__buildResultOrDisabledExpression", "workflow_yaml__buildOptionalExpression",
     "workflow_yaml_yamlConverter_FromYAML",
-    "engine__StepWorkflowPaths", "engine__SubworkflowCache", "engine__subworkflowCache", "engine_workflowEngine_Parse",
+    "engine__StepWorkflowPaths", "engine__SubworkflowCache", "engine__subworkflowCache", "engine__checkSubworkflowCycles",
+    "engine_workflowEngine_Parse",
     "engine_engineWorkflow_Run", "loadfile_loadfile__MergeFileCaches", "loadfile_loadfile__NewFileCacheUsingContext",
     "step_foreach_provider_forEachProvider_LoadSchema",
 ]
@@ -25,7 +26,10 @@ THEOREMS = [
     "Arca.Props.C11.buildExpression_recovers",
     "Arca.Props.C11.parse_path_never_panics",
     "Arca.Props.C11.chain_measure_decreases",
+    "Arca.Props.C11.check_measure_decreases",
     "Arca.Props.C11.subworkflowCache_total",
+    "Arca.Props.C11.checkCycles_total",
+    "Arca.Props.C11.parse_rejects_cycles_in_used_files",
     "Arca.Props.C11.parseFiles_total",
     "Arca.Props.C11.subworkflows_found_or_reported",
     "Arca.Props.C11.subworkflows_error_only_if_problem",
@@ -182,7 +186,7 @@ RULE = ("generated YAML node trees (tags !expr/!oneof/!ordisabled/!wait-optional
         "yaml.v3 produced (distinct = distinct text; non-trivial = not the uncorrupted workflow and not accepted by both Parse and "
         "FromYAML, or a corruption); file systems of workflows whose foreach steps reference each other (chain, diamond, self, "
         "2- and 3-cycles, cycle through the root, other spellings and absolute paths of one file, missing, invalid, malformed "
-        "foreach steps, random graphs) through engine.Parse and engine.SubworkflowCache against Arca.Model.SubWf (distinct = "
+        "foreach steps, random graphs) through engine.Parse (with the cache of the CLI and with an in-memory cache holding every file, some with the text of another one) and engine.SubworkflowCache against Arca.Model.SubWf (distinct = "
         "distinct file system; non-trivial = more than a leaf workflow); byte-level mutations of valid texts as a fuzz test "
         "(oracle: value or error, never panic or timeout)")
 
